@@ -126,12 +126,13 @@ theorem c14_dns_client_handle_total (name resp : Bytes) : NoPanic (Dns.clientHan
       · exact noPanic_ok _
     · exact noPanic_ok _
 
-/-- before the fix (F-C14-4): a truncated query, a query name that is not UTF-8 and a query for
+/-- before the fix (F-C14-4): an empty datagram (at shutdown), a truncated query, a query name that is not UTF-8 and a query for
     an unknown name each panicked the DNS server; a truncated response, an answer name that is
     not UTF-8, a record shorter than 4 bytes and an answer for another name each panicked the
     client.  (12 header bytes, `name SP type class`, `name SP type class ttl rdlength rdata`.) -/
 theorem c14_dns_responder_v0_counterexample :
-    Dns.serverRespondV0 [1, 2, 3] = .error (.panic "panic:unwrap:dns_server_from_bytes")
+    Dns.serverRespondV0 [] = .error (.panic "panic:unwrap:dns_server_recv")
+    ∧ Dns.serverRespondV0 [1, 2, 3] = .error (.panic "panic:unwrap:dns_server_from_bytes")
     ∧ Dns.serverRespondV0 (Dns.toMessage { Dns.example1 with question := Dns.newQuestion [0xff] })
         = .error (.panic "panic:unwrap:dns_server_query_name")
     ∧ Dns.serverRespondV0 (Dns.toMessage { Dns.example1 with question := Dns.newQuestion [0x78] })
